@@ -206,6 +206,8 @@ theorem facUpdateConfig_inv {w w' : World} {s : Nat} {o tc pc : Option Nat}
   unfold facUpdateConfig at h
   split at h
   · cases h
+  split at h
+  · cases h
   injection h with h
   exact h.symm
 
@@ -335,16 +337,17 @@ theorem commission_le_one_forever {name : Asset → String} {w w' : World} {s : 
 
 /-! ### C16: the environment never changes -/
 
-/-- the raw asset identifiers and the factory address are the same -/
+/-- the raw asset identifiers, the factory address and the validity of address strings are the same -/
 structure EnvEq (w w' : World) : Prop where
   rawId : w'.rawId = w.rawId
   facAddr : w'.facAddr = w.facAddr
+  badAddr : w'.badAddr = w.badAddr
 
-theorem EnvEq.refl (w : World) : EnvEq w w := ⟨rfl, rfl⟩
+theorem EnvEq.refl (w : World) : EnvEq w w := ⟨rfl, rfl, rfl⟩
 theorem EnvEq.trans {a b c : World} (h1 : EnvEq a b) (h2 : EnvEq b c) : EnvEq a c :=
-  ⟨h2.rawId.trans h1.rawId, h2.facAddr.trans h1.facAddr⟩
-theorem envEq_of_same {w w' : World} (h : Same w w') : EnvEq w w' := ⟨h.rawId, h.facAddr⟩
-theorem envEq_of_pairOnly {w w' : World} (h : PairOnly w w') : EnvEq w w' := ⟨h.rawId, h.facAddr⟩
+  ⟨h2.rawId.trans h1.rawId, h2.facAddr.trans h1.facAddr, h2.badAddr.trans h1.badAddr⟩
+theorem envEq_of_same {w w' : World} (h : Same w w') : EnvEq w w' := ⟨h.rawId, h.facAddr, h.badAddr⟩
+theorem envEq_of_pairOnly {w w' : World} (h : PairOnly w w') : EnvEq w w' := ⟨h.rawId, h.facAddr, h.badAddr⟩
 
 theorem facFanOut1_env {denom decimals : Nat} {w w' : World} {msgs msgs' : List (Nat × Nat × Nat)}
     {e : Bytes × Record} (h : facFanOut1 denom decimals (w, msgs) e = .ok (w', msgs')) : EnvEq w w' := by
@@ -355,7 +358,7 @@ theorem facFanOut1_env {denom decimals : Nat} {w w' : World} {msgs msgs' : List 
   injection h with h
   by_cases h0 : e.2.a0 = .native denom <;> by_cases h1 : e.2.a1 = .native denom <;>
     simp only [h0, h1, if_true, if_false, Prod.mk.injEq] at h <;>
-    (obtain ⟨rfl, _⟩ := h; exact ⟨rfl, rfl⟩)
+    (obtain ⟨rfl, _⟩ := h; exact ⟨rfl, rfl, rfl⟩)
 
 theorem facFanOut_fold_env {denom decimals : Nat} :
     ∀ (l : List (Bytes × Record)) {acc acc' : World × List (Nat × Nat × Nat)},
@@ -378,10 +381,10 @@ theorem facAddDecimals_env {w w' : World} {s d k : Nat} (h : facAddDecimals w s 
   · simp only [bind_ok_iff] at h
     obtain ⟨⟨w2, msgs⟩, h1, h2⟩ := h
     have k1 := facFanOut_fold_env _ h1
-    exact EnvEq.trans ⟨k1.rawId, k1.facAddr⟩ (envEq_of_pairOnly (fanOutMsgs_pairOnly _ h2))
+    exact EnvEq.trans ⟨k1.rawId, k1.facAddr, k1.badAddr⟩ (envEq_of_pairOnly (fanOutMsgs_pairOnly _ h2))
   · simp only [pure_ok_iff] at h
     subst h
-    exact ⟨rfl, rfl⟩
+    exact ⟨rfl, rfl, rfl⟩
 
 /-- no operation changes the raw identifiers of assets or the factory's address -/
 theorem envEq_exec {name : Asset → String} {w w' : World} {op : Op} {out : Out}
@@ -437,10 +440,10 @@ theorem envEq_exec {name : Asset → String} {w w' : World} {op : Op} {out : Out
     | updateConfig o tc pc =>
       have h2 : facUpdateConfig w0 s o tc pc = .ok w1 := h1
       rw [facUpdateConfig_inv h2]
-      exact ⟨rfl, rfl⟩
+      exact ⟨rfl, rfl, rfl⟩
     | createPair a0 a1 req comm lpDec np nl =>
       obtain ⟨_, _, _, d0, d1, _, _, _, rfl⟩ := facCreatePair_inv h1
-      exact ⟨rfl, rfl⟩
+      exact ⟨rfl, rfl, rfl⟩
     | addDecimals d k => exact facAddDecimals_env h1
     | migratePair p c =>
       have h2 : facMigratePair w0 s p c = .ok w1 := h1
